@@ -3,6 +3,7 @@ package main
 import (
 	"encoding/json"
 	"fmt"
+	"net"
 	"os"
 	"path/filepath"
 	"sort"
@@ -34,8 +35,10 @@ type Loader struct {
 }
 
 type File struct {
-	Broken bool     `json:"broken,omitempty"`
-	Script []Action `json:"script,omitempty"`
+	Broken bool `json:"broken,omitempty"`
+	// exists (stat succeeds) but cannot be opened for reading, even by root: a unix socket
+	Unreadable bool     `json:"unreadable,omitempty"`
+	Script     []Action `json:"script,omitempty"`
 }
 
 type Op struct {
@@ -175,6 +178,9 @@ func (o Op) coq() string {
 	case "file":
 		if o.File == nil {
 			return fmt.Sprintf("HSetFile %d %d None", o.D, o.N)
+		}
+		if o.File.Unreadable {
+			return fmt.Sprintf("HSetFile %d %d (Some FUnreadable)", o.D, o.N)
 		}
 		if o.File.Broken {
 			return fmt.Sprintf("HSetFile %d %d (Some FBroken)", o.D, o.N)
@@ -883,7 +889,17 @@ func runHistory(env *envT, x in) (obs []obsT, fail string) {
 			if o.File == nil {
 				os.Remove(p)
 				delete(env.written, p)
+			} else if o.File.Unreadable {
+				os.Remove(p)
+				l, err := net.Listen("unix", p)
+				if err != nil {
+					panic(err)
+				}
+				l.(*net.UnixListener).SetUnlinkOnClose(false)
+				l.Close()
+				env.written[p] = true
 			} else {
+				os.Remove(p) // a socket cannot be overwritten in place
 				src := "return return (("
 				if !o.File.Broken {
 					src = luaPrelude + luaBody(o.File.Script, fmt.Sprintf("file:%d", o.D))
@@ -969,7 +985,7 @@ func sanitize(ops []Op) []Op {
 	for _, o := range ops {
 		if o.Op == "file" {
 			if o.N == 4 {
-				if o.File != nil && !o.File.Broken {
+				if o.File != nil && !o.File.Broken && !o.File.Unreadable {
 					o = Op{Op: "preload", N: 4, Loader: &Loader{Kind: "lua", Script: o.File.Script}}
 				} else {
 					o = Op{Op: "getloaded", N: 4}
